@@ -234,6 +234,11 @@ fn go<const N: usize, J: Jar>(rep: &mut Report, job: &Job, q: &Mappings<N, ()>, 
                     Ok(c) => c,
                     Err(err) => { rep.violation(format!("C07 class: a class of the remapped jar is not well-formed: {}", template(&err)), cdetail(json!({"error": err, "output_hex": hex(&o.data), "output_entry": want}))); continue; }
                 };
+                if observed.this_class != expected.this_class && observed.this_class != m.this_class {
+                    // some other class of the jar sits under this name (happens when entry names and class names go out of step)
+                    rep.violation("C07 entry: the entry named after the remapped class holds a different class", cdetail(json!({"expected_entry": want, "expected_this_class": expected.this_class.show(), "observed_this_class": observed.this_class.show(), "present": names_present()})));
+                    continue;
+                }
                 outcome.classes_compared += 1; rep.count("classes.compared");
                 let findings = compare::compare(m, &expected, &observed, 200);
                 if findings.is_empty() { outcome.classes_equal += 1; rep.count("classes.equal_to_expectation"); }
